@@ -30,7 +30,7 @@ URL_TMPL = {1: "/x/{p}", 2: "/x/{p}/y", 3: "/{p}"}
 MEDIA = {"json": "application/json", "form": "application/x-www-form-urlencoded", "text": "text/plain"}
 CONF_HEADERS = {"X-Conf": "v 1;q=a"}
 TRANSPORTS = ("requests", "wsgi", "asgi")
-ASPECTS = ("url", "param", "extra", "hdrs", "conf", "id", "method", "ctype", "body")
+ASPECTS = ("url", "param", "extra", "hdrs", "conf", "id", "host", "method", "ctype", "body")
 
 
 # ---------------------------------------------------------------------------------------------------------------------
@@ -480,7 +480,19 @@ def delim_of(fmt):
 P_NAME = cps(NAME)
 
 
+_TRIPLET = re.compile(rb"%([0-9A-Fa-f]{2})")
+_UNRESERVED = set(b"ABCDEFGHIJKLMNOPQRSTUVWXYZabcdefghijklmnopqrstuvwxyz0123456789-._~")
+
+
+def norm_unreserved(seg: list[int]) -> list[int]:
+    if any(c > 255 for c in seg):
+        return seg
+    return list(_TRIPLET.sub(lambda m: bytes([int(m.group(1), 16)]) if int(m.group(1), 16) in _UNRESERVED else m.group(0), bytes(seg)))
+
+
 def path_decode(d, seg, mode):
+    if mode == "pct":
+        seg = norm_unreserved(seg)
     ty = d["type"]
     if d["dialect"] == "swagger2":
         if ty == "prim":
@@ -721,14 +733,15 @@ def py_judge(o: dict, fragment: str, want: dict) -> dict:
     var = cps("{p}")
     struct_ok = bool(o["path"]) and o["path"][0] == 47 and len(got_segs) == len(want_segs)
     lit_ok = struct_ok and all(ws == var or txt(gs, o["pmode"]) == text(ws) for ws, gs in zip(want_segs, got_segs))
-    url = "U" if o["kind"] != "body" and o["def"]["loc"] == "path" and fragment != "T" else "F:structure" if not struct_ok else "F:literal" if not lit_ok else "F:host" if o["gotHost"] != o["wantHost"] else "T"
+    in_path = o["kind"] != "body" and o["def"]["loc"] == "path"
+    url = "U" if in_path and fragment != "T" else ("T" if in_path else "F:structure") if not struct_ok else "F:literal" if not lit_ok else "T"
     seg = got_segs[want_segs.index(var)] if struct_ok and var in want_segs else []
     body_kind = o["kind"] == "body"
     loc = o["def"]["loc"]
     if body_kind:
         pv, why = "T", ""
     elif loc == "path" and not struct_ok:
-        pv, why = "N", "structure"
+        pv, why = ("U", fragment) if fragment != "T" else ("F", "structure")
     else:
         pv, why = py_param_verdict(o, fragment, want, seg)
     extra = "F" if (body_kind or loc != "query") and o["query"] else "T"
@@ -757,6 +770,7 @@ def py_judge(o: dict, fragment: str, want: dict) -> dict:
         body = "T" if bt is not None and bt == want_of(want)[1][0] else "F"
     return {"url": url, "param": pv, "why": why, "extra": extra, "hdrs": hdrs, "conf": conf,
             "id": "T" if o["gotId"] == o["wantId"] and o["wantId"] else "F",
+            "host": "T" if o["gotHost"] == o["wantHost"] else "F",
             "method": "T" if o["method"] == o["wantMethod"] else "F",
             "ctype": "T" if o["ctype"] == o["wantCtype"] else "F", "body": body}
 
@@ -808,11 +822,11 @@ def value_features(v: dict) -> frozenset:
 def site_parts(el: dict, pipe: str, aspect: str) -> tuple[str, tuple]:
     """(group, dims): the group never collapses; a dimension collapses to '*' when every judged value of it fails alike."""
     d = el["def"]
-    if el["kind"] == "param":
-        return "%s:%s:%s:%s" % (aspect, pipe, d["dialect"], d["loc"]), (d["style"], "explode=" + d["explode"], d["type"])
-    if el["kind"] == "url":
-        return "%s:%s:url" % (aspect, pipe), ("base=" + (BASE_PATH[el["base"]] or "(none)"), "tmpl=" + URL_TMPL[el["tmpl"]])
-    return "%s:%s:body" % (aspect, pipe), (el["media"], el["val"]["k"])
+    if el["kind"] == "body":
+        return aspect + ":body", (pipe, el["media"], el["val"]["k"])
+    tmpl = URL_TMPL[el["tmpl"]] if el["kind"] == "url" else ("/x/{p}/y" if d["loc"] == "path" else "/x")
+    return aspect, (pipe, d["dialect"], d["loc"], d["style"], "explode=" + d["explode"], d["type"],
+                    "base=" + (BASE_PATH[el["base"]] or "(none)"), "tmpl=" + tmpl)
 
 
 def site_of(el: dict, pipe: str, aspect: str) -> str:
@@ -825,17 +839,23 @@ def collapse(failing: set, universe: set) -> dict:
     import itertools
 
     n = len(next(iter(failing)))
+    every = universe | failing
     labels: dict = {}
-    masks = sorted(itertools.product((True, False), repeat=n), key=lambda m: (-sum(m), m))
-    for mask in masks:
-        for t in sorted(failing):
-            if t in labels:
-                continue
-            members = {u for u in universe | failing if all(m or u[i] == t[i] for i, m in enumerate(mask))}
-            if members <= failing:
-                lab = ":".join(("*" if m else t[i]) for i, m in enumerate(mask))
-                for u in members:
-                    labels.setdefault(u, lab)
+    for mask in sorted(itertools.product((True, False), repeat=n), key=lambda m: (-sum(m), m)):
+        total: dict = {}
+        bad: dict = {}
+        for u in every:
+            pat = tuple("*" if m else u[i] for i, m in enumerate(mask))
+            total[pat] = total.get(pat, 0) + 1
+            if u in failing:
+                bad[pat] = bad.get(pat, 0) + 1
+        for t in failing:
+            if t not in labels:
+                pat = tuple("*" if m else t[i] for i, m in enumerate(mask))
+                if bad.get(pat) == total[pat]:
+                    labels[t] = ":".join(pat)
+        if len(labels) == len(failing):
+            break
     return labels
 
 
@@ -861,31 +881,45 @@ def attribute(fails: list[dict]) -> None:
 # ---------------------------------------------------------------------------------------------------------------------
 # judging
 # ---------------------------------------------------------------------------------------------------------------------
-JUDGE_FIELDS = ("kind", "def", "val", "media", "explicit", "method", "wantMethod", "basePath", "tmpl", "path", "pmode", "query",
-                "hnames", "hpresent", "hval", "cpresent", "cookie", "ctype", "wantCtype", "body", "conf", "gotId", "wantId",
-                "gotHost", "wantHost")
+CTX_FIELDS = ("kind", "media", "wantMethod", "basePath", "tmpl", "wantCtype")
+CORE_FIELDS = {"x": "explicit", "m": "method", "path": "path", "pm": "pmode", "q": "query", "hp": "hpresent", "hv": "hval",
+               "cp": "cpresent", "ck": "cookie", "b": "body", "ct": "ctype"}
+ENV_FIELDS = ("hnames", "conf", "gotId", "wantId", "gotHost", "wantHost")
+
+
+class _Table:
+    def __init__(self):
+        self.index: dict[str, int] = {}
+        self.rows: list = []
+
+    def add(self, row) -> int:
+        k = json.dumps(row, sort_keys=True)
+        if k not in self.index:
+            self.rows.append(row)
+            self.index[k] = len(self.rows)  # 1-based for TLA+
+        return self.index[k]
 
 
 def judge(ctx: Ctx, observations: list[dict], name: str = "obs.json"):
-    """TLC judges every distinct observation; returns (verdicts aligned with `observations`, TLCResult, distinct count)."""
-    keys: dict[str, int] = {}
-    uniq: list[dict] = []
+    """TLC judges every distinct core observation and every distinct envelope; returns (verdicts aligned with
+    `observations`, TLCResult, number of distinct entries judged)."""
+    defs, vals, ctxs, cores, envs = _Table(), _Table(), _Table(), _Table(), _Table()
     idx = []
     for o in observations:
-        proj = {k: o[k] for k in JUDGE_FIELDS}
-        k = json.dumps(proj, sort_keys=True)
-        if k not in keys:
-            keys[k] = len(uniq)
-            uniq.append(proj)
-        idx.append(keys[k])
+        core = {"c": ctxs.add({k: o[k] for k in CTX_FIELDS}), "d": defs.add(o["def"]), "v": vals.add(o["val"])}
+        core.update({k: o[src] for k, src in CORE_FIELDS.items()})
+        env = {k: o[k] for k in ENV_FIELDS}
+        env["loc"] = o["def"]["loc"] if o["kind"] != "body" else "none"
+        idx.append((cores.add(core), envs.add(env)))
     f = ctx.path(name)
-    tlc.write_json(f, uniq)
-    verdicts: dict[int, dict] = {}
+    tlc.write_json(f, {"defs": defs.rows, "vals": vals.rows, "ctx": ctxs.rows, "core": cores.rows, "env": envs.rows})
+    vc: dict[int, dict] = {}
+    ve: dict[int, dict] = {}
     res = tlc.require_ok(tlc.run_tlc("WireJudge", "WireJudge.cfg", env={"OBS_FILE": f}, timeout=3000, want_prints=False,
-                                     on_json=lambda tag, d: verdicts.__setitem__(d["i"], d)), "WireJudge")
-    if len(verdicts) != len(uniq):
-        raise tlc.TLCFailure("WireJudge judged %d of %d observations" % (len(verdicts), len(uniq)))
-    return [verdicts[i + 1] for i in idx], res, len(uniq)
+                                     on_json=lambda tag, d: (vc if tag == "V" else ve).__setitem__(d["i"], d)), "WireJudge")
+    if len(vc) != len(cores.rows) or len(ve) != len(envs.rows):
+        raise tlc.TLCFailure("WireJudge judged %d/%d core and %d/%d envelope entries" % (len(vc), len(cores.rows), len(ve), len(envs.rows)))
+    return [{**vc[c], **ve[e]} for c, e in idx], res, len(cores.rows) + len(envs.rows)
 
 
 def run(ctx: Ctx) -> Outcome:
@@ -963,7 +997,8 @@ def run(ctx: Ctx) -> Outcome:
     for (ci, pipe, aspect, feature), fs in grouped.items():
         trs = sorted({f["transport"] for f in fs})
         ran = sorted({r["transport"] for r in results[ci] if r.get("pipe") == pipe and "transport" in r})
-        tr = "all" if trs == ran or trs == ["-"] else "+".join(trs)
+        rest = [t for t in ran if t != "requests"]
+        tr = "all" if trs == ran or trs == ["-"] else "not-requests" if trs == rest else "+".join(trs)
         group, dims = site_parts(cases[ci], pipe, aspect)
         pending.append((group, feature, tr, dims, ci, pipe, aspect, trs, fs[0]))
     # universe of judged descriptor dimensions per (group, feature): where the same feature was judged at all
@@ -974,14 +1009,14 @@ def run(ctx: Ctx) -> Outcome:
         for a in ASPECTS:
             if v[a] == "T" or v[a].startswith("F"):
                 g, dims = site_parts(el, r["pipe"], a + (v[a][1:] if a == "url" and v[a] != "T" else ""))
-                judged_dims.setdefault(g.split(":", 1)[1], []).append((dims, ft))
+                judged_dims.setdefault("body" if el["kind"] == "body" else "req", []).append((dims, ft))
     by_key: dict[tuple, set] = {}
     for group, feature, tr, dims, *_ in pending:
         by_key.setdefault((group, feature, tr), set()).add(dims)
     labels: dict[tuple, dict] = {}
     for (group, feature, tr), failing in by_key.items():
         need = set() if feature == "any-value" else set(feature.split("+"))
-        universe = {dims for dims, ft in judged_dims.get(group.split(":", 1)[1], []) if need <= ft}
+        universe = {dims for dims, ft in judged_dims.get("body" if group.endswith(":body") else "req", []) if need <= ft}
         labels[(group, feature, tr)] = collapse(failing, universe)
     for group, feature, tr, dims, ci, pipe, aspect, trs, f0 in sorted(pending, key=lambda x: (x[0], x[1], x[2], x[3], x[4])):
         el = cases[ci]
